@@ -87,6 +87,7 @@ class Interp:
         self.inline = inline
         self.max_depth = max_depth
         self.paths = 0
+        self._const_depth = 0
 
     # ---- variants ------------------------------------------------------------------------
     def variants(self, adt):
@@ -174,6 +175,18 @@ class Interp:
                 return ("i", int(c["int"]))
             if t.k == "tuple" and not t.arg_ids:
                 return ("unit",)
+            # a promoted constant (`&Some(Variant)`) or a crate-level const: evaluate its (argument-free) body
+            cb = self.f.by_def.get(c["s"])
+            if cb and len(cb) == 1 and (cb[0].def_kind == "Promoted" or cb[0].def_kind.startswith("Const")) and self._const_depth < 3:
+                self._const_depth += 1
+                try:
+                    res = self.table(cb[0], [])
+                    if len(res) == 1:
+                        return res[0][1]
+                except (Unsupported, Infeasible):
+                    pass
+                finally:
+                    self._const_depth -= 1
             return ("k", c["s"])
         raise Unsupported("operand %r" % (op,))
 
@@ -532,6 +545,31 @@ def bi_clone(it, fn, args, path, body, blk, depth):
     return [(path, _peel(args[0]))]
 
 
+def _concrete(v):
+    if not isinstance(v, tuple):
+        return True
+    if v and v[0] in ("sym", "free", "choice", "k"):
+        return False
+    return all(_concrete(x) for x in v)
+
+
+def bi_eq(it, fn, args, path, body, blk, depth):
+    """Derived structural equality on fully known values (`phase == Some(FailurePhase::OnStart)`)."""
+    if len(args) != 2:
+        return None
+    a, b = _peel(args[0]), _peel(args[1])
+    while isinstance(a, tuple) and a and a[0] == "ref":
+        a = _peel(a[1])
+    while isinstance(b, tuple) and b and b[0] == "ref":
+        b = _peel(b[1])
+    if not (_concrete(a) and _concrete(b)):
+        return None
+    if not (a[0] in ("enum", "b", "i", "unit") and b[0] in ("enum", "b", "i", "unit")):
+        return None
+    r = a == b
+    return [(path, B(r if fn.get("name") == "eq" else not r))]
+
+
 def bi_into(it, fn, args, path, body, blk, depth):
     """`x.into()` is `U::from(x)` (the std blanket impl): evaluated through the crate's own `From<X> for U` impl when the
     argument is a value of a crate ADT X with exactly one such impl for the requested target."""
@@ -555,6 +593,8 @@ def bi_into(it, fn, args, path, body, blk, depth):
 
 DEFAULT_BUILTINS = {
     "name:into": bi_into,
+    "name:eq": bi_eq,
+    "name:ne": bi_eq,
     "core::option::{impl#0}::is_some": bi_is_some,
     "std::option::Option::<T>::is_some": bi_is_some,
     "std::option::Option::<T>::is_none": bi_is_none,
